@@ -418,8 +418,10 @@ def suite_find(ctx):
         L = Ls.langs[li]
         words = Ls.words(li)
         off = rnd.randrange(stride)
-        for wi in range(off, len(words), stride):
-            for tok in word_variants(L, words[wi], rnd, (wi // stride) % 4 == 0):
+        for wi in range(len(words)):
+            # every word in full, always (C07: each word decodes to its own index); variants for every stride-th word
+            toks = word_variants(L, words[wi], rnd, (wi // stride) % 4 == 0) if wi % stride == off else [words[wi]]
+            for tok in toks:
                 if b'\x00' in tok or not tok:
                     continue
                 line = 'find %d %s' % (li, hx(tok))
@@ -460,6 +462,9 @@ def suite_find(ctx):
                 # ambiguous by the rule itself: the table facts (C07) exclude this
                 bad.append(('C07', 'ambiguous-token', 'token %r is accepted for several words %s by the rule' % (tok, cand[:4]), [op.head]))
                 continue
+            if got != want and tok in idx[li].raw:
+                bad.append(('C07', 'full-word:%d' % li, 'lang %d (%s): the word "%s" (index %s) typed in full is %s' % (
+                    li, L['name_en'].decode(), tok.decode('utf-8', 'replace'), idx[li].raw[tok], 'not recognised' if got < 0 else 'recognised as index %d' % got), [op.head]))
             if got != want:
                 try:
                     ts = tok.decode('utf-8')
